@@ -275,6 +275,39 @@ void fs_reset() {
   fs.open_count = 0;
   fs.cookie_reads = 0;
 }
+const FsNode* fs_resolve(const std::string& path, int* err) {
+  *err = 0;
+  if (path.empty()) { *err = ENOENT; return nullptr; }
+  // Normalise: collapse repeated slashes and "." components; remember a trailing slash.
+  std::string p;
+  bool trailing = path.size() > 1 && path.back() == '/';
+  size_t i = 0;
+  if (path[0] == '/') p = "/";
+  while (i < path.size()) {
+    while (i < path.size() && path[i] == '/') ++i;
+    size_t e2 = path.find('/', i);
+    if (e2 == std::string::npos) e2 = path.size();
+    std::string comp = path.substr(i, e2 - i);
+    i = e2;
+    if (comp.empty() || comp == ".") continue;
+    if (!p.empty() && p.back() != '/') p += "/";
+    p += comp;
+  }
+  if (p.empty()) p = ".";
+  auto it = fs.nodes.find(p);
+  if (it == fs.nodes.end()) {
+    *err = ENOENT;
+    for (size_t k = 1; k < p.size(); ++k) if (p[k] == '/') {   // a path that runs through a non-directory is ENOTDIR
+      auto pit = fs.nodes.find(p.substr(0, k));
+      if (pit != fs.nodes.end() && pit->second.kind != FsNode::DIR) { *err = ENOTDIR; break; }
+    }
+    return nullptr;
+  }
+  if (trailing && it->second.kind != FsNode::DIR) { *err = ENOTDIR; return nullptr; }
+  if (it->second.kind == FsNode::NOPERM) { *err = EACCES; return nullptr; }
+  return &it->second;
+}
+
 void env_reset() {
   env.active = false;
   env.vars.clear();
@@ -360,18 +393,7 @@ FILE* __wrap_fopen(const char* path, const char* mode) {
   int err = 0;
   const FsNode* node = nullptr;
   for (const OpenFault& of : fs.open_faults) if (of.open_index == index) { err = of.err; fired("fopen_errno"); }
-  if (!err) {
-    auto it = fs.nodes.find(p);
-    if (it == fs.nodes.end()) {
-      err = ENOENT;
-      // A path that runs through a regular file is ENOTDIR.
-      for (size_t i = 1; i < p.size(); ++i) if (p[i] == '/') {
-        auto pit = fs.nodes.find(p.substr(0, i));
-        if (pit != fs.nodes.end() && pit->second.kind != FsNode::DIR) { err = ENOTDIR; break; }
-      }
-    } else if (it->second.kind == FsNode::NOPERM) err = EACCES;
-    else node = &it->second;
-  }
+  if (!err) node = fs_resolve(p, &err);
   fs.opens.push_back(p + " -> " + (err ? errname(err) : "ok"));
   if (err) { errno = err; return nullptr; }
   Cookie* ck = new Cookie;
